@@ -557,7 +557,19 @@ func run(e *core.Env) {
 				e.Fault("clock_jump")
 			}
 			k := tp.Intn(len(library))
-			trial(libKinds[k], "replayed-later", linkXV, append([]byte(nil), library[k]...), libKinds[k] == "announce")
+			what := "replayed-later"
+			if libKinds[k] == "announce" && libSrc[k] == X.IP && tp.Chance(1, 2) {
+				// The state the announcement created is gone again - the link to X flapped, which
+				// takes X's routes out of V's table - and X has sent V a newer signed ping since.
+				// The old announcement must stay dead: anything newer of X has been seen.
+				_, _, _ = X.Router.PingPong.Send(V.IP, true, 0) // (error pings have a 10 s send cool-down)
+				simnet.Wait()
+				ms.Net.DrainFIFO(tp, 500)
+				V.Router.Table().RemoveNextHop(X.IP)
+				what = "replayed-after-newer-ping-and-link-flap"
+				e.Fault("link_flap")
+			}
+			trial(libKinds[k], what, linkXV, append([]byte(nil), library[k]...), libKinds[k] == "announce")
 			e.Fault("replay_old")
 		}
 		// (c'') replay after minutes of silence: V's cleaner drops idle sessions (after one
